@@ -359,6 +359,7 @@ type harnessReport struct {
 	Validated    int               `json:"native_replays_matching"`
 	Mismatches   []string          `json:"validation_mismatches,omitempty"`
 	StubSkipped  int64             `json:"paths_only_reachable_through_stub_over_approximation,omitempty"`
+	Unconfirmed  int64             `json:"paths_whose_condition_the_solver_gave_no_verdict_on_not_sampled,omitempty"`
 	StubViolations int64           `json:"assertion_failures_discarded_as_stub_artefacts,omitempty"`
 	Violations   int               `json:"violations_replayed"`
 	Known        int               `json:"known_findings_matched"`
@@ -524,7 +525,7 @@ func cmdCheck(args []string) {
 			SolverWallS: ex.SolverWall.Seconds(), LongestMs: float64(ex.SolverLongest.Microseconds()) / 1000,
 			Asserts: ex.Stats.Asserts, AssertsConcrete: ex.Stats.ConcreteAsserts, AssertsProved: ex.Stats.AssertProved, AssertsUnknown: ex.Stats.AssertUnknown,
 			Steps: ex.Stats.Steps, Cover: ex.Covers, Unencodable: ex.Unenc, BoundExceeded: ex.Bounds, Truncated: ex.Truncated,
-			funcs: ex.FuncsSeen, StubSkipped: ex.StubDiverged, StubViolations: ex.Stats.StubViolations, UnknownAsserts: ex.UnknownAsserts,
+			funcs: ex.FuncsSeen, StubSkipped: ex.StubDiverged, Unconfirmed: ex.Unconfirmed, StubViolations: ex.Stats.StubViolations, UnknownAsserts: ex.UnknownAsserts,
 		}
 		if len(ex.Unenc) > 0 || len(ex.Bounds) > 0 || ex.Truncated || ex.Stats.AssertUnknown > 0 || ex.Stats.BranchUnknown > 0 || ex.Stats.ConfirmBad > 0 {
 			incomplete = true
@@ -617,6 +618,17 @@ func cmdCheck(args []string) {
 			for i, o := range outs {
 				v := vrefs[i].v
 				reproduced := o.Result == "violation" || o.Result == "panic" || o.Result == "crash"
+				if !reproduced {
+					// the engine runs every path from fresh package state; the batch
+					// process had run other vectors before this one: judge it again
+					// alone in a process of its own
+					if solo := vrp.run(name, params, [][][2]interface{}{v.Vector}, 120*time.Second); len(solo) == 1 {
+						if solo[0].Result == "violation" || solo[0].Result == "panic" || solo[0].Result == "crash" {
+							o = solo[0]
+							reproduced = true
+						}
+					}
+				}
 				if !reproduced {
 					rep.Unreproduced = append(rep.Unreproduced, fmt.Sprintf("%s on {%s}: %s (native: %s %s)", v.AssertID, vecString(v.Vector), v.Detail, o.Result, o.Detail))
 					incomplete = true
